@@ -517,18 +517,4 @@ theorem dec_enc (v : CVal) (rest : Bytes) (hv : okB v = true) (hr : NumSafe rest
 
 theorem numSafe_nil : NumSafe [] := by intro b r h; cases h
 
-/-- Top-level decode into `[]any` of an encoded list. -/
-theorem decTop_enc (l : List CVal) (hv : okB (.list l) = true) : decTop (enc (.list l)) = .ok l := by
-  have h := dec_enc (.list l) [] hv numSafe_nil
-  simp only [List.append_nil] at h
-  cases l with
-  | nil =>
-    simp only [enc] at h ⊢
-    simp only [decTop, skipWs_cons (show isWs 0x5b = false by decide)]
-    rw [if_pos (by decide), h]
-  | cons v vs =>
-    simp only [enc] at h ⊢
-    simp only [decTop, skipWs_cons (show isWs 0x5b = false by decide)]
-    rw [if_pos (by decide), h]
-
 end Nexus.Codec.Json
